@@ -3,8 +3,8 @@ package c12
 import (
 	"bytes"
 	"crypto/sha1"
-	"encoding/hex"
 	"encoding/base64"
+	"encoding/hex"
 	"encoding/json"
 	"fmt"
 	"sort"
